@@ -134,3 +134,14 @@ pub fn agrees_any_scaled(alts: &Value, got: f64, sentinel: f64, scale: f64) -> b
 pub fn repeat_of(rep: i64) -> Repeat {
     match rep { -1 => Repeat::None, -2 => Repeat::Infinite, -3 => Repeat::Times(u32::MAX), n if n >= 0 => Repeat::Times(n as u32), _ => panic!("rep") }
 }
+
+/// Easings whose output leaves [0,1] (Back family, customs Over / Under): with them a lerp between values
+/// near +-f32::MAX may legitimately overflow, so the scaled-value pass keeps more headroom.
+pub fn overshoots(id: i64) -> bool { matches!(id, 4 | 5 | 36 | 37 | 38) }
+
+/// Largest power-of-two scale for the extreme-value pass: values up to 3e38 (differences beyond f32::MAX)
+/// when no easing overshoots, up to 1e38 otherwise.
+pub fn extreme_scale(maxabs: f64, any_overshoot: bool) -> f32 {
+    let bound = if any_overshoot { 1.0e38f64 } else { 3.0e38f64 };
+    (2.0f64).powi((bound / maxabs.max(1.0)).log2().floor() as i32) as f32
+}
